@@ -46,6 +46,8 @@ def programs():
       # no abort at all: the main body m1 returns at the very moment its timeout expires (see make_run);
       # whether the executor sees a timeout or the body's own result, the entered group is torn down once
       'deadline': program([group('g1', [], [P('m1', plugs=('x',))], [P('t1')])]),
+      # no abort: both plugs' tearDown return at the very moment plug_teardown_timeout_s expires (C08)
+      'plugedge': program([P('p1', plugs=('x', 'y'))], plugspec=dict(tdmode={'x': 'edge', 'y': 'edge'})),
       'nested': program([group('g1', [P('s1', plugs=('x',)), group('g0', [], [P('sm')], [P('t0')])],
                                [P('m1')], [P('t1')]), P('after')]),
   }
@@ -69,6 +71,7 @@ SCRIPTS = {
     'group': {'s1': 'C', 'm1': 'C', 'm2': 'C', 't1': 'C', 't2': 'C', 'after': 'C'},
     'stubborn': {'s1': 'C', 'm1': 'C', 'm2': 'C', 't1': 'C', 't2': 'C', 'after': 'C'},
     'deadline': {'m1': 'C', 't1': 'C'},
+    'plugedge': {'p1': 'C'},
     'repeat': {'r1': 'RRC', 'q1': 'C'},
     'subtest': {'a1': 'C', 'b1': 'C', 'c1': 'C'},
     'start': {'st': 'C', 'p1': 'C', 'm1': 'C', 't1': 'C'},
@@ -81,7 +84,7 @@ def make_run(prog_name, source, naborts):
   def run(policy):
     from vf import build, sched
     import openhtf as htf
-    deadline = prog_name == 'deadline'
+    deadline = prog_name in ('deadline', 'plugedge')
     # deadline race: every statement of threads.py is a scheduling point as well (the kill of the timed-out
     # phase thread races with that thread's own exit)
     s = sched.Sched(policy=policy, max_steps=60000, trace_events=True,
@@ -90,6 +93,10 @@ def make_run(prog_name, source, naborts):
 
     def main():
       build.reset_process_globals()
+      if deadline:
+        # statement-level points lie inside threads.synchronized: the configuration's lock (created at
+        # import time, a real lock) must be a cooperative one for the duration of this run
+        build.CONF._lock = threading.RLock()
       prog = programs()[prog_name]
       script = {n: [(b, 'n', ()) for b in bs] * 3 for n, bs in SCRIPTS[prog_name].items()}
       ctx = build.Ctx(script)
@@ -113,7 +120,9 @@ def make_run(prog_name, source, naborts):
         sched.point('body')
         sched.point('body')
       ctx.hooks['body'] = body_hook
-      test, start = build.make_test(ctx, prog, timeout_s=1 if deadline else None)
+      test, start = build.make_test(ctx, prog, timeout_s=1 if prog_name == 'deadline' else None)
+      if prog_name == 'plugedge':
+        build.CONF.load(plug_teardown_timeout_s=3, _override=True)
       out = []
 
       def cb(rec):
@@ -166,6 +175,11 @@ def make_run(prog_name, source, naborts):
         ctx.events.append(('exec-ret', ret))
       except KeyboardInterrupt:
         ctx.events.append(('exec-ret', 'KeyboardInterrupt'))
+      except Exception as e:  # pylint: disable=broad-except
+        ctx.events.append(('exec-raised', type(e).__name__))
+      finally:
+        if prog_name == 'plugedge':
+          build.CONF.load(plug_teardown_timeout_s=0, _override=True)
       box['rec'] = out[0] if out else None
       box['ncb'] = len(out)
       ctx.events.append(('exec-done',))
@@ -173,9 +187,11 @@ def make_run(prog_name, source, naborts):
       for t in ctx.aborters:
         t.join()
       box['test'] = test
+    conf_lock = build.CONF._lock
     try:
       s.run(main)
     finally:
+      build.CONF._lock = conf_lock
       ctx = box.get('ctx')
       box['events'] = list(ctx.events) if ctx else []
       LAST['box'] = box
